@@ -46,8 +46,8 @@ def build_jobs(prop, tier, seed, do, monitors, streams=None, want=None, monitor_
                         timeout=300 if q else 1800, tag="clean:%s:%d" % (mode, j), stall_s=60 if q else 120))
     # focus stream: three-way value splits (mid value / min cost) on wide domains under one-directional constraints -
     # the part of the search machinery that two-valued and alldifferent-only models never reach
-    for j in range(2 if q else 4):
-        cost = j % 2 == 1
+    for j in range(3 if q else 6):
+        cost = j % 3 == 1
         task = {
             "props": want, "seed": seed * 389 + j * 11 + 1, "count": per_job * 2,
             "gen": clean_gen({"types": ["affine_leq", "affine_geq", "max_leq", "min_geq", "affine_leq", "affine_geq",
@@ -56,13 +56,35 @@ def build_jobs(prop, tier, seed, do, monitors, streams=None, want=None, monitor_
                               "nonneg": cost, "big": False}),
             "configs": "random", "configs_per_model": configs_per_model, "cost": cost, "monitors": monitors,
             "monitor_opts": monitor_opts or {}, "do": do, "orders": orders, "objectives_per_model": 1,
-            "force_cfg": {"dh": ["min_cost"] if cost else ["mid"]},
+            "force_cfg": ({"dh": ["min_cost"]} if cost else ({"dh": ["mid"]} if j % 3 == 0 else
+                                                              {"dh": ["max", "max", "min", "split_low"],
+                                                               "calg": ["bc"]})),
             "max_points": 6000, "deadline_s": 60 if q else 900, "stream": "focus_three_way_split",
         }
         if task_extra:
             task.update(task_extra)
-        jobs.append(Job("framework.props.models", "run_models", task, mode="jit" if (jit_share > 0 and j >= 2) else
+        jobs.append(Job("framework.props.models", "run_models", task, mode="jit" if (jit_share > 0 and j >= 3) else
                         "interp", timeout=300 if q else 1800, tag="focus3:%d" % j, stall_s=60 if q else 120))
+    # focus stream: models on which shaving actually shaves (probes refuted where bound consistency alone is stuck:
+    # parity of linear equalities, pigeonholes) surrounded by one-directional constraints
+    if "fixpoint" in monitors or "shaving" in monitors:
+        for j in range(2 if q else 4):
+            task = {
+                "props": want, "seed": seed * 397 + j * 5 + 2, "count": per_job * 2,
+                "gen": clean_gen({"types": ["affine_eq", "affine_eq", "affine_leq", "affine_geq", "alldifferent",
+                                            "max_leq", "min_geq", "affine_leq", "affine_geq", "exactly_true", "and"],
+                                  "widths": [1, 1, 1, 2, 3] if j % 2 == 0 else [1, 2, 3, 3, 4], "max_doms": 5,
+                                  "max_props": 5, "max_alias": 1, "circuit": 0.0, "big": False, "plant": 0.6,
+                                  "coef": 2}),
+                "configs": "random", "configs_per_model": configs_per_model, "cost": False, "monitors": monitors,
+                "monitor_opts": monitor_opts or {}, "do": do, "orders": 0, "objectives_per_model": 1,
+                "force_cfg": {"calg": ["shaving"]},
+                "max_points": 6000, "deadline_s": 60 if q else 900, "stream": "focus_shaving_succeeds",
+            }
+            if task_extra:
+                task.update(task_extra)
+            jobs.append(Job("framework.props.models", "run_models", task, mode="interp", timeout=300 if q else 1800,
+                            tag="focus-shaving:%d" % j, stall_s=60 if q else 120))
     # interaction stream: every ordered pair of constraint types forced to share a variable (mover x watcher)
     if pairs_jobs is None:
         pairs_jobs = 2 if q else 6
